@@ -189,6 +189,7 @@ class RowSets:
         self.opaque = opaque or (lambda t: None)
         self.memo = {}
         self.atoms = {}  # atom name -> description
+        self.atom_terms = {}  # atom name -> defining term (for opaque row predicates)
 
     # ---- frames -----------------------------------------------------------------------------
     def member(self, t):
@@ -282,6 +283,8 @@ class RowSets:
             return t[1][2] != "flatten" or self._is_mask(t[1][1])
         if k == "call" and t[1][0] == "global" and t[1][1].endswith("isclose"):
             return True
+        if k == "call" and t[1][0] == "attr" and t[1][2] in ("any", "all") and dict(t[3]).get("axis", t[2][0] if t[2] else None) == ("const", 1):
+            return True
         return False
 
     def col_of(self, t):
@@ -326,6 +329,16 @@ class RowSets:
             self._same_rows_source(lc[0], frame)
             name = f"isclose({lc[1]},{ir.show(m[2][1])})"
             self.atoms[name] = name
+            return ("var", name)
+        if k == "call" and m[1][0] == "attr" and m[1][2] in ("any", "all") and dict(m[3]).get("axis", m[2][0] if m[2] else None) == ("const", 1):
+            # row-wise any / all over a block of columns, e.g. np.isclose(frame[cols], 0).any(axis=1): one opaque row predicate;
+            # its term is kept so that rules can ask what it depends on (request parameters ..)
+            inner = m[1][1]
+            name = f"{m[1][2]}({ir.show(inner, maxdepth=5)})"
+            if len(name) > 140:
+                name = name[:137] + "..."
+            self.atoms[name] = name
+            self.atom_terms[name] = inner
             return ("var", name)
         if k == "call" and m[1][0] == "attr" and m[1][2] == "between" and len(m[2]) >= 2:
             # Series.between(left, right, inclusive="both"): left <= col <= right unless `inclusive` says otherwise
